@@ -1,8 +1,8 @@
 // Helpers of the `race` engine on top of rt/vrt.hpp:
-//  * schedule strategies that record every (thread, site) step in a global, so that a sanitizer death can
-//    report the exact schedule of the dying execution (the engine classifies it against the TLC state graph);
-//  * a persistent DFS stack (state file) so that the exploration of a scenario resumes after a death;
-//  * the common harness world (one operation per execution, heap-allocated, freed by its receiver).
+//  * schedule strategies that record every (thread, site) step in a global, so that a sanitizer report can be
+//    stored together with the exact schedule that led to it (the engine classifies it against the TLC state graph);
+//  * recoverable ASan reports (ErrRec): the execution is marked tainted, the enumeration goes on in-process;
+//  * a small shared block (Shared) carrying per-execution result counters and the schedule of a fatal death.
 #pragma once
 #include "vrt.hpp"
 
@@ -108,9 +108,9 @@ inline vrt::RunResult run_guided(vrt::Ctl& c, const std::vector<vrt::StepRec>& s
   return r;
 }
 
-// ---- state shared between the driver's parent process and the forked child that runs ONE execution
-// (anonymous MAP_SHARED): the DFS stack (rewritten after every new choice, so the parent can continue the enumeration
-// even if the child dies), the child's result counters, and the schedule of a dying execution.
+// ---- per-execution result block (anonymous MAP_SHARED so that it could also be filled by a forked child: fork per
+// execution was tried and is ~250 ms/execution under ASan here, so executions run in-process): the DFS stack, the
+// execution's result counters, and the schedule of a dying execution.
 struct Shared {
   static constexpr size_t kLongs = 1 << 16, kRes = 8000, kSched = 8192, kDrift = 40000;
   long* m = nullptr;
